@@ -67,6 +67,8 @@ func (p *process) Invoke(msgs []Envelope) {
 		// bottom of the function it freezes some tests. Hence, I created a new counter
 		// for bookkeeping.
 		processed = 0
+		// the graceful poison pill we are draining the batch for, if any.
+		draining *Envelope
 	)
 	defer func() {
 		// If we recovered, we buffer up all the messages that we could not process
@@ -75,6 +77,10 @@ func (p *process) Invoke(msgs []Envelope) {
 			p.mbuffer = make([]Envelope, nmsg-nproc)
 			for i := 0; i < nmsg-nproc; i++ {
 				p.mbuffer[i] = msgs[i+nproc]
+			}
+			// keep the pill, so we still stop once the rest is processed.
+			if draining != nil {
+				p.mbuffer = append(p.mbuffer, *draining)
 			}
 			p.tryRestart(v)
 		}
@@ -87,8 +93,10 @@ func (p *process) Invoke(msgs []Envelope) {
 			// If we need to gracefuly stop, we process all the messages
 			// from the inbox, otherwise we ignore and cleanup.
 			if pill.graceful {
-				msgsToProcess := msgs[processed:]
+				draining = &msg
+				msgsToProcess := msgs[processed+1:]
 				for _, m := range msgsToProcess {
+					nproc++
 					p.invokeMsg(m)
 				}
 			}
